@@ -312,7 +312,36 @@ def rule_o7(ctx):
                          % (lf, s.line, sum(1 for _, _, x in flags if x)))
 
 
+
+def rule_o8(ctx):
+    from ..core import const_of
+    r = ctx.rule("C03.O8", "T9", "sibling agreement of the send slots: a function stored in sock_send / ctx_send that completes the "
+                 "user's aio successfully has taken the message off it first (nni_aio_set_msg(aio, NULL)): the socket owns the "
+                 "message from then on, and a pointer left on the aio dangles", floor=10)
+    prog = ctx.prog
+    fns = []
+    for slot in SEND_SLOTS[:2]:
+        for f in prog.slot_fns(slot):
+            if f not in fns and "/protocol/" in f.file and not f.cfg_failed and len(f.params) > 1:
+                fns.append(f)
+    for f in fns:
+        aio = f.params[1]["n"]
+        succ = [s for s in f.calls(("nni_aio_finish", "nni_aio_finish_sync")) if len(s.node["args"]) > 1 and
+                const_of(f.expand(s.node["args"][1])) == 0 and show(f.expand(s.node["args"][0])) == aio]
+        clears = {(s.b, s.i) for s in f.calls("nni_aio_set_msg") if show(f.expand(s.node["args"][0])) == aio and
+                  is_null(f.expand(s.node["args"][1]))}
+        for s in succ:
+            if f.dominated_by((s.b, s.i), blocked=lambda b, i, e: (b, i) in clears):
+                r.ob(f, "successful completion line %s after nni_aio_set_msg(%s, NULL)" % (s.line, aio))
+            else:
+                ctx.fail(r, f, "successful send leaves the message on the aio", s.line,
+                         "%s completes %s with success at line %s without nni_aio_set_msg(%s, NULL): its siblings all clear "
+                         "it; nng_aio_get_msg() after the completion returns a message the socket already owns (and may have "
+                         "freed)" % (f.name, aio, s.line, aio))
+
+
 def run(ctx):
     ctx.guard(rule_o1)
     ctx.guard(rule_o4)
     ctx.guard(rule_o7)
+    ctx.guard(rule_o8)
